@@ -932,7 +932,9 @@ func (i *indexImpl) SearchInContext(ctx context.Context, req *SearchRequest) (sr
 				// Set regex filter if provided
 				if facetRequest.TermPattern != "" {
 					// Use cached compiled pattern if available, otherwise compile it now
-					if facetRequest.compiledPattern != nil {
+					// (the cache is stale when the pattern was changed after Validate)
+					if facetRequest.compiledPattern != nil &&
+						facetRequest.compiledPattern.String() == facetRequest.TermPattern {
 						facetBuilder.SetRegexFilter(facetRequest.compiledPattern)
 					} else {
 						regex, err := regexp.Compile(facetRequest.TermPattern)
